@@ -28,6 +28,7 @@ Fixpoint spec_run (o : oracle) (h w : nat) (scr : screen) (drawn : grid cell)
          | Frame => same_display scr' (show o h w drawn)
                     && spec_run o h w scr' (gmake h w cell_default) ops' impl'
          | Resize h' w' _ => spec_run o h' w' scr' (gmake h' w' cell_default) ops' impl'
+         | FailFrame _ => spec_run o h w scr' drawn ops' impl'
          | _ => spec_run o h w scr' (gmake h w cell_default) ops' impl'
          end
   | _, _ => false
@@ -77,6 +78,15 @@ Fixpoint resume_run (o : oracle) (h w : nat) (scr : screen) (drawn : grid cell)
           mode_ok mode scr' && resume_run o h w scr' blank (resumed scr' mode) ops' impl'
       | Resize h' w' _ =>
           mode_ok mode scr' && resume_run o h' w' scr' (gmake h' w' cell_default) (resumed scr' mode) ops' impl'
+      | FailFrame _ =>
+          (* an aborted frame is not a rendered frame and is not judged; the repaint stays forced, so the next
+             rendered frame must show its surface; whatever the terminal places now (the aborted frame may
+             have placed images nobody knows of) is tolerated from here on *)
+          resume_run o h w scr' drawn
+                     (match mode with
+                      | Some E => if err scr' then None else Some (E ++ places scr')
+                      | None => None
+                      end) ops' impl'
       end
   | _, _ => false
   end.
@@ -114,6 +124,7 @@ Fixpoint idle_ok (o : oracle) (h w : nat) (prev : option (grid cell)) (drawn : g
           && idle_ok o h w (Some now) (gmake h w cell_default) ops' impl'
       | SkipFrame => idle_ok o h w prev (gmake h w cell_default) ops' impl'
       | Clear | Renew => idle_ok o h w None (gmake h w cell_default) ops' impl'
+      | FailFrame _ => idle_ok o h w None drawn ops' impl'
       | Resize h' w' _ => idle_ok o h' w' None (gmake h' w' cell_default) ops' impl'
       end
   | _, _ => true
